@@ -155,10 +155,55 @@ def theorem_names(prop):
     return re.findall(r"^\s*(?:Theorem|Example|Lemma|Corollary)\s+([A-Za-z0-9_']+)", src, flags=re.M)
 
 
+FORBIDDEN = re.compile(r"\b(Admitted|admit|Axiom|Axioms|Parameter|Parameters|Conjecture|Conjectures|Admit\s+Obligations)\b|Unset\s+Guard|Unset\s+Positivity|Unset\s+Universe|bypass_check|type-in-type|impredicative-set")
+
+
+def hygiene():
+    """no axioms, admits or kernel switches anywhere in the development (comments stripped)"""
+    found = []
+    files = [os.path.join(COQ, "_CoqProject")]
+    for root, _, fs in os.walk(os.path.join(COQ, "theories")):
+        files += [os.path.join(root, f) for f in fs if f.endswith(".v")]
+    for f in sorted(files):
+        try:
+            text = open(f).read()
+        except OSError:
+            continue
+        # strip (possibly nested) comments and string literals
+        out, depth, i, instr = [], 0, 0, False
+        while i < len(text):
+            c2 = text[i:i + 2]
+            if instr:
+                if text[i] == '"':
+                    instr = False
+                i += 1
+            elif c2 == "(*":
+                depth += 1
+                i += 2
+            elif c2 == "*)" and depth > 0:
+                depth -= 1
+                i += 2
+            elif depth > 0:
+                i += 1
+            elif text[i] == '"':
+                instr = True
+                i += 1
+            else:
+                out.append(text[i])
+                i += 1
+        m = FORBIDDEN.search("".join(out))
+        if m:
+            found.append("%s: %s" % (os.path.relpath(f, COQ), m.group(0)))
+    return found
+
+
 def check_proofs(prop):
     """Returns dict: obligations, discharged, assumptions{thm: text}, broken[list]."""
     names = theorem_names(prop)
     res = {"theorems": names, "obligations": len(names), "discharged": 0, "assumptions": {}, "broken": []}
+    bad = hygiene()
+    if bad:
+        res["broken"].append("forbidden construct in the Coq development: " + "; ".join(bad[:5]))
     if not names:
         res["broken"].append("Properties/%s.v has no theorems" % prop)
         return res
